@@ -207,6 +207,52 @@ def repeated_descriptors(ctx):
                                'out-of-band list %r' % (vals, idxs, out_fds), w, case)
 
 
+def natural_variants(ctx, seed, n, si, sn):
+    """Variants whose content is a natural Python container with elements that share a base type but not a class (a bool
+    next to an int, an ObjectPath next to a str ...), in any order: the bytes - read by the reference decoder - carry a
+    signature and a content that say what was given (variants carry the signature of their content)."""
+    from checks.c19 import mixed_int_family, mixed_str_family
+    import random as _random
+
+    def plain_in(v):
+        if isinstance(v, (list, tuple)):
+            return [plain_in(x) for x in v]
+        if isinstance(v, dict):
+            return {k: plain_in(x) for k, x in v.items()}
+        return v
+    for i in range(n):
+        idx = i * sn + si
+        r = _random.Random('%s/c02natural/%s' % (seed, idx))
+        fam = mixed_int_family(r) if r.random() < 0.6 else mixed_str_family(r)
+        r.shuffle(fam)
+        content = fam if r.random() < 0.5 else {'k%d' % j: x for j, x in enumerate(fam)}
+        if r.random() < 0.3:
+            content = {'nested': content, 'n': 5}
+        little, off = r.random() < 0.5, r.choice([0, 1, 4, 7])
+        case = {'stream': 'natural', 'idx': idx}
+        ctx.count('evaluations')
+        ctx.count('natural_variant_cases')
+        try:
+            nbytes, chunks = M.marshal('v', [content], off, little)
+        except Exception as e:
+            ctx.report(None, 'marshal of a natural variant content %r raised %r' % (content, e), {'value': repr(content)}, case)
+            continue
+        data = b''.join(chunks)
+        w = {'value': repr(content), 'little': little, 'offset': off, 'bytes': data}
+        try:
+            typed, end = R.decode('v', b'\xEE' * off + data, off, little, strict=True)
+        except R.CodecError as e:
+            ctx.report('not-wire-format', 'bytes produced for the variant content %r are not valid DBus encoding: %s' % (
+                content, e), w, case)
+            continue
+        got = R.plain_list('v', typed)[0]
+        if not R.plain_eq(got, plain_in(content)):
+            w['reference_reads'] = repr(got)
+            w['wire_signature'] = typed[0].sig
+            ctx.report('encodes-other-value', 'the variant written for %r carries signature %r and reads as %r' % (
+                content, typed[0].sig, got), w, case)
+
+
 def foreign_case(seed, idx):
     r = CC.case_rng(seed, 'foreign', idx)
     g = gen.Gen(r, max_depth=r.choice([2, 3, 4]), big=(r.random() < 0.1), free_variants=True)
@@ -260,6 +306,7 @@ def run(ctx):
                         'reference_bytes': R.encode(sig2, tv2, off2, little2).hex()[:200]})
         if ctx.stop_early() or (i % 128 == 0 and ctx.out_of_time()):
             break
+    natural_variants(ctx, ctx.seed, 800 if ctx.tier == 'quick' else 30000 // sn, si, sn)
     # whole messages: header fields are (code, variant) entries, so the wire format of a message depends on the same
     # encoder - including when a parsed message is written out again, which is what passes through the built-in bus
     from checks.c03 import check_foreign
@@ -290,6 +337,8 @@ def replay(ctx, rp):
     elif st == 'foreign':
         sig, tv, little, off = foreign_case(seed, case['idx'])
         dir_b(ctx, sig, tv, little, off, case)
+    elif st == 'natural':
+        natural_variants(ctx, seed, 1, case['idx'], 10**9)
     elif st == 'repeated-fds':
         repeated_descriptors(ctx)
     elif st == 'not-text':
